@@ -14,7 +14,7 @@ def polymod(values):
         b = chk >> 25
         chk = ((chk & 0x1FFFFFF) << 5) ^ v
         for i in range(5):
-            chk = chk ^ ite(((b >> i) & 1) != 0, GEN[i], 0)
+            chk = chk ^ ite(((b >> i) & 1) == 1, GEN[i], 0)
     return chk
 
 
